@@ -203,8 +203,6 @@ def speed_bound(ctx: Ctx):
                 ctx.check(ok, "D2", "BD.speed-bound", "max_speed_kmph = max over the speeds of the finished link table (defaults included)", fn, s.stmt,
                           why_bad=f"max_speed_kmph = {d[:200]}: not an upper bound of every link's effective speed (links whose speed is filled in later, or other aggregates, are missed)",
                           construct="OSMRoadNetwork.__init__:max-speed")
-        if found:
-            break
     if not found:
         raise AnalysisError("OSMRoadNetwork.__init__: max_speed_kmph is not assigned")
 
